@@ -797,7 +797,13 @@ package raft
 //@   ensures ioOK ==> err == nil
 //@   ensures err == nil ==> fsmIndex == sfIndex[snapshotReader]
 
+// The two flags that pause application during a snapshot / mark an Apply in flight are each written
+// by one goroutine only (and read by the others under the lock).
+//@ owner Raft.snapshotting = Raft.snapshotLoop
+//@ owner Raft.applying = Raft.applyLoop
 //@ func Raft.snapshotLoop
+//@   requires [started-unpaused] !r.snapshotting
+//@   loop while r.state != Shutdown invariant [unpaused] !r.snapshotting
 
 //@ func Raft.takeSnapshot
 //@   flags inline lockheld
@@ -1032,6 +1038,7 @@ package raft
 //@ func Raft.Stop
 //@ func Raft.start
 //@   flags splitexits
+//@   ensures [contact-on-start] err == nil && entry(r.state) == Shutdown ==> r.lastContact >= entry(now)
 //@   loop range r.configuration.Members invariant [Ifol] forall id string :: id in visited ==> id in r.followers
 //@ func Raft.cancelConfigurationChange
 //@   flags inline lockheld
